@@ -156,6 +156,11 @@ def through_reader(source, encoding, fields, setting):
     # (in any of the three error modes: no row of free text is ever rejected, so they have to agree - and a malformed
     # container ends the pass in every mode)
     READER_CALLS[0] += 1
+    if READER_CALLS[0] % 5 == 0 and isinstance(source, io.StringIO):
+        # a stream the caller has already read something else from (a preamble): the reader takes it from where it stands
+        text = source.getvalue()
+        source = io.StringIO("\r\nzz" + text, newline="")
+        source.read(4)
     return cutplace.Reader(cid, source, on_error=("raise", "continue", "yield")[READER_CALLS[0] % 3]).rows()
 
 
